@@ -72,6 +72,8 @@ type World struct {
 	WriteErr func(n int, p []byte) error
 	// OpenErr makes NewTPacket fail for an interface
 	OpenErr map[string]error
+	// WriteDelay makes the n-th write (0-based) block that long on the virtual clock after the frame left
+	WriteDelay func(n int) time.Duration
 	// OnWrite is called (inside the write step) after a frame was logged
 	OnWrite func(f *Frame)
 }
@@ -143,6 +145,12 @@ func (t *TPacket) ZeroCopyReadPacketData() ([]byte, gopacket.CaptureInfo, error)
 }
 
 func (t *TPacket) WritePacketData(p []byte) (err error) {
+	var delay time.Duration
+	defer func() {
+		if delay > 0 {
+			vs.Sleep(delay)
+		}
+	}()
 	vs.Visible("wire.write", func() {
 		if t.isClosed {
 			err = errors.New("write: use of closed file")
@@ -154,6 +162,9 @@ func (t *TPacket) WritePacketData(p []byte) (err error) {
 		vs.Observe("wire.write", "%x", p)
 		if W.WriteErr != nil {
 			err = W.WriteErr(n, p)
+		}
+		if W.WriteDelay != nil {
+			delay = W.WriteDelay(n)
 		}
 		if W.OnWrite != nil {
 			W.OnWrite(&W.Written[n])
